@@ -31,6 +31,8 @@ type Proc struct {
 	DefaultTermios syscall.Termios
 	Stubs          []*StubSource
 	HistFiles      []string
+	Sources        []readline.History // bound sources in binding order
+	SourceNames    []string
 }
 
 func ioctl(fd uintptr, req uintptr, arg unsafe.Pointer) error {
@@ -224,6 +226,8 @@ func (p *Proc) prepare(s *Session, env *wire.Env) {
 	os.Setenv("TERM", term)
 	p.Stubs = nil
 	p.HistFiles = nil
+	p.Sources = nil
+	p.SourceNames = nil
 }
 
 func (p *Proc) cleanup(s *Session) {
@@ -271,6 +275,8 @@ func (p *Proc) newShell(env *wire.Env) *readline.Shell {
 				m.Write(e)
 			}
 			sh.History.Add(name, m)
+			p.Sources = append(p.Sources, m)
+			p.SourceNames = append(p.SourceNames, name)
 		case "file":
 			path := p.Path(fmt.Sprintf("hist-%d.jsonl", i))
 			os.Remove(path)
@@ -284,11 +290,15 @@ func (p *Proc) newShell(env *wire.Env) *readline.Shell {
 			}
 			p.HistFiles = append(p.HistFiles, path)
 			sh.History.Add(name, f)
+			p.Sources = append(p.Sources, f)
+			p.SourceNames = append(p.SourceNames, name)
 		case "stub":
 			st := &StubSource{Items: append([]string(nil), h.Entries...), FailWrite: h.FailWrite, FailGet: h.FailGet,
 				rng: rand.New(rand.NewPCG(uint64(len(h.Entries))+77, uint64(i)+1))}
 			p.Stubs = append(p.Stubs, st)
 			sh.History.Add(name, st)
+			p.Sources = append(p.Sources, st)
+			p.SourceNames = append(p.SourceNames, name)
 		}
 	}
 	if env.Comp != nil {
